@@ -55,6 +55,8 @@ VF_MAIN
     int32_t rc;
     unsigned bs, i;
     int cbc;
+    int32_t msn0;
+    uint8_t room;
 
     VF_HAVOC(S, ssl_t);
     vf_ssl_scalars(ssl, 0);
@@ -78,6 +80,13 @@ VF_MAIN
     /* caller contract: the message size covers the headers; bounded payload */
     VF_ASSUME(messageSize >= ssl->recordHeadLen + ssl->hshakeHeadLen && messageSize <= 64);
 
+    /* output room arbitrary: the SSL_FULL answer (and the retry that follows
+       it) must come before anything is drawn or written */
+    room = vf_u8();
+    VF_ASSUME(room <= VF_OUT);
+    end = g_out + room;
+    msn0 = ssl->msn;
+
     rc = writeRecordHeader(ssl, type, hsType, &messageSize, &padLen, &encryptStart, end, &c);
 
     if (hsType == SSL_HS_FINISHED)
@@ -96,6 +105,12 @@ VF_MAIN
         /* a record whose IV could not be drawn is never produced (its IV
            would be whatever the output buffer held before) */
         VF_ASSERT(rc < 0, "c17.cbc_iv_prng_failure_not_ignored");
+    }
+    if (rc == SSL_FULL || rc == DTLS_MUST_FRAG)
+    {
+        VF_REACH("full_or_must_frag");
+        VF_ASSERT(g_prng_calls == 0, "c17.full_retry_draws_no_iv");
+        VF_ASSERT(c == g_out && ssl->msn == msn0, "c17.full_retry_writes_nothing");
     }
     if (rc == PS_SUCCESS)
     {
